@@ -52,6 +52,19 @@ import (
 	"google.golang.org/protobuf/proto"
 )
 
+// every signature keeps its own quota of recorded failures: a defect that fails thousands of cases must not
+// push the failures of another defect out of the report (vlib stops recording after 600 failures in total)
+var c06PerSig = map[string]int{}
+
+func c06Fail(out *vlib.Out, sig, what, replay string) {
+	c06PerSig[sig]++
+	if c06PerSig[sig] > 25 {
+		out.Count("oracle-failures-not-recorded:" + sig)
+		return
+	}
+	out.OracleFail(sig, what, replay)
+}
+
 // ---------------------------------------------------------------------------------------------
 // private network namespace in which every address is local
 
@@ -753,7 +766,9 @@ func (w *c06World) runC06(out *vlib.Out, pp *c06Parsed, provided string, gen int
 	w.dns.gen.Store(int64(gen))
 	conf := pp.conf
 	replay := fmt.Sprintf("c06|gen=%d|%s|%s|%s", gen, pp.pol.String(), hex.EncodeToString([]byte(provided)), hex.EncodeToString([]byte(dup)))
-	fail := func(sig, what string) { out.OracleFail(sig, what+" — covert "+strconv.Quote(provided)+" policy "+pp.pol.String(), replay) }
+	fail := func(sig, what string) {
+		c06Fail(out, sig, what+" — covert "+strconv.Quote(provided)+" policy "+pp.pol.String(), replay)
+	}
 
 	// ---- the answers of the standard library (oracle parameters of the model)
 	a := w.answers(conf, provided)
@@ -947,7 +962,7 @@ func c06CheckDialSite(out *vlib.Out) {
 	fset := token.NewFileSet()
 	pkgs, err := parser.ParseDir(fset, ".", func(fi os.FileInfo) bool { return !strings.HasSuffix(fi.Name(), "_test.go") }, 0)
 	if err != nil {
-		out.OracleFail("C06:dial-site-unreadable", err.Error(), "source")
+		c06Fail(out, "C06:dial-site-unreadable", err.Error(), "source")
 		return
 	}
 	dialCovert, dialOther := 0, 0
@@ -1001,11 +1016,11 @@ func c06CheckDialSite(out *vlib.Out) {
 	}
 	out.Checked()
 	if dialCovert != 1 || dialOther != 0 {
-		out.OracleFail("C06:dial-site", fmt.Sprintf("Proxy does not dial reg.Covert verbatim exactly once (Dial* calls with reg.Covert: %d, other Dial* calls: %d)", dialCovert, dialOther), "source proxies.go")
+		c06Fail(out, "C06:dial-site", fmt.Sprintf("Proxy does not dial reg.Covert verbatim exactly once (Dial* calls with reg.Covert: %d, other Dial* calls: %d)", dialCovert, dialOther), "source proxies.go")
 	}
 	sort.Strings(assigns)
 	if len(assigns) != 1 || !strings.HasPrefix(assigns[0], "registration_ingest.go:") {
-		out.OracleFail("C06:covert-reassigned", "assignments to a Covert field outside the covert step of ingestRegistration: "+strings.Join(assigns, " "), "source")
+		c06Fail(out, "C06:covert-reassigned", "assignments to a Covert field outside the covert step of ingestRegistration: "+strings.Join(assigns, " "), "source")
 	}
 }
 
@@ -1058,7 +1073,7 @@ func (w *c06World) runSched(out *vlib.Out, pol c06Policy, coverts []string, sche
 	}
 	replay := fmt.Sprintf("c06sched|%s|%s|%s", pol.String(), strings.Join(cs, ","), strings.Join(ss, ""))
 	fail := func(sig, what string) {
-		out.OracleFail(sig, what+" — workers "+strconv.Quote(strings.Join(coverts, " | "))+" schedule "+strings.Join(ss, "")+" policy "+pol.String(), replay)
+		c06Fail(out, sig, what+" — workers "+strconv.Quote(strings.Join(coverts, " | "))+" schedule "+strings.Join(ss, "")+" policy "+pol.String(), replay)
 	}
 	s := &c06Sched{parked: make(chan int), resume: make([]chan struct{}, n), point: make([]string, n), fin: make([]bool, n)}
 	for i := range s.resume {
